@@ -354,6 +354,13 @@ func (p *sparser) primary() SExpr {
 			x := p.expr(0)
 			p.expectOp(")")
 			return SOld{x}
+		case "elems", "mapsOf":
+			if p.isOp("(") {
+				p.next()
+				ty := p.typeText()
+				p.expectOp(")")
+				return SCall{SIdent{t.s}, []SExpr{SIdent{ty}}}
+			}
 		case "if":
 			c := p.expr(0)
 			if n := p.next(); n.s != "then" {
